@@ -146,4 +146,60 @@ func srcRedactor(f *facts, o *out) {
 		o.add("Definition arg_secrets_deep : bool := true. (* default *)")
 		f.status["arg_secrets_deep"] = "unrecognised"
 	}
+	// lifecycle of the two redactors in RunE: every variable assigned from newRedactor(...) must be closed by a
+	// deferred call (`defer contract.IgnoreClose(x)` or `defer x.Close()`), i.e. on every path out of RunE, whatever
+	// exec.Run returns.  Redactors that exist but are not all closed by defer => false (Close reached on some paths only).
+	redactors := map[string]bool{}
+	deferred := map[string]bool{}
+	if fd := f.funcDecl(rel, "newEnvRunCmd"); fd != nil && fd.Body != nil {
+		ast.Inspect(fd.Body, func(n ast.Node) bool {
+			switch x := n.(type) {
+			case *ast.AssignStmt:
+				// a, b := newRedactor(..), newRedactor(..)   or   a := newRedactor(..)
+				if len(x.Lhs) == len(x.Rhs) {
+					for i, r := range x.Rhs {
+						if call, ok := r.(*ast.CallExpr); ok {
+							if fn, ok := call.Fun.(*ast.Ident); ok && fn.Name == "newRedactor" {
+								if id, ok := x.Lhs[i].(*ast.Ident); ok {
+									redactors[id.Name] = true
+								}
+							}
+						}
+					}
+				}
+			case *ast.DeferStmt:
+				if sel, ok := x.Call.Fun.(*ast.SelectorExpr); ok {
+					if sel.Sel.Name == "IgnoreClose" && len(x.Call.Args) == 1 {
+						if id, ok := x.Call.Args[0].(*ast.Ident); ok {
+							deferred[id.Name] = true
+						}
+					}
+					if sel.Sel.Name == "Close" && len(x.Call.Args) == 0 {
+						if id, ok := sel.X.(*ast.Ident); ok {
+							deferred[id.Name] = true
+						}
+					}
+				}
+			}
+			return true
+		})
+	}
+	switch {
+	case len(redactors) == 0:
+		o.add("Definition redactors_closed_on_every_path : bool := true. (* default *)")
+		f.status["redactors_closed_on_every_path"] = "unrecognised"
+	default:
+		all := true
+		for name := range redactors {
+			if !deferred[name] {
+				all = false
+			}
+		}
+		if all {
+			o.add("Definition redactors_closed_on_every_path : bool := true.")
+		} else {
+			o.add("Definition redactors_closed_on_every_path : bool := false.")
+		}
+		f.status["redactors_closed_on_every_path"] = "ok"
+	}
 }
